@@ -82,11 +82,11 @@ class Gen:
                 continue
             if ek["kind"] == "obj":
                 if full or rng.random() < 0.5:
-                    kw.append([ek["py"], {"o": self.tree(b["cls"], depth - 1, full and depth > 1)}])
+                    kw.append([ek["py"], {"o": self.tree(T.child_class(c, ek["py"], b["cls"]), depth - 1, full and depth > 1)}])
             elif ek["kind"] == "objlist":
                 n = rng.choice([0, 1, 1, 2, 3]) if not full else rng.choice([1, 2])
                 if n:
-                    kw.append([ek["py"], {"l": [self.tree(b["cls"], depth - 1, False) for _ in range(n)]}])
+                    kw.append([ek["py"], {"l": [self.tree(T.child_class(c, ek["py"], b["cls"]), depth - 1, False) for _ in range(n)]}])
         rng.shuffle(kw)
         return {"cls": c, "kw": kw}
 
@@ -110,7 +110,7 @@ class Gen:
             b = bks.get(ek["py"])
             if (ek["py"] != member and others != "all") or ek["kind"] == "any":
                 continue
-            cls = b["cls"] if b and b.get("cls") else None
+            cls = T.child_class(c, ek["py"], b["cls"]) if b and b.get("cls") else None
             if cls is None:
                 # the builder has no branch for it: take the class from the member spec
                 for k in T.chain(c):
